@@ -204,7 +204,9 @@ def judge(case, part):
         if decl["fmt"] in ("delimited", "fixed") and harness.PRESETS[decl["preset"]][1] and field_type == "Decimal":
             # the separator rows declared behind the field row: they are data format properties all the same
             try:
-                usable, verdicts = observe_via_cid(decl, cells, props_after_fields=True)
+                # with an example that is written without any separator (it is validated when the field row is read, before the separator rows)
+                plain = next((c for c in cells if c.isdigit() and c.isascii() and direct.get(c) == "accept"), None)
+                usable, verdicts = observe_via_cid(dict(decl, example=plain) if plain else decl, cells, props_after_fields=True)
             except Exception as error:
                 part.fail(tag % ("cid-path:properties-after-fields-raised-" + type(error).__name__), case, "rows readable under a CID declaring the field", repr(error))
                 return
@@ -438,6 +440,12 @@ def regex_cases(tier):
                     decl["width"] = 4
                 # rules rendered with three consecutive dots also go through the CID path (there '...' is the ellipsis of ranges only)
                 cases.append({"decl": decl, "cells": ABC_CELLS + ["a\u2026", "\u2026"], "no_cid": n > 2 and "..." not in fieldmodel.render_rule("RegEx", decl["rule"])})
+    # letters outside ASCII: case is ignored for them as well
+    other_cells = ["\xf6", "\xd6", "\u03a9", "\u03c9", "\xe4", "\xc4", "a\xd6", "\xf6a", "\xc4b", "\xe4B", "\u0141\xd3d\u0179", "\u0142\xf3d\u017a", "o", "a"]
+    for tokens in ([["lit", "\xf6"]], [["lit", "a"], ["lit", "\xd6"]], [["set", False, "\xe4\xf6"], ["lit", "b"]], [["lit", "\u03a9"]], [["lit", "\u03c9"]],
+                   [["lit", "\u0142"], ["lit", "\xf3"], ["lit", "d"], ["lit", "\u017a"]], [["+", ["set", False, "\u03b1\u03c9"]]]):
+        for preset in ("delimited", "ods", "excel"):
+            cases.append({"decl": {"type": "RegEx", "preset": preset, "rule": {"ast": ["seq", tokens]}}, "cells": other_cells})
     return cases
 
 
